@@ -14,13 +14,14 @@ type State struct {
 	cells   map[*ssa.Alloc]string  // non-escaping locals
 	heap    map[string]string      // heap key -> array term (missing = base of epoch)
 	epoch   int                    // generation of the unmodelled remainder of the heap
+	ext     int                    // generation of heaps of dependency-package types
 	alloc   string                 // allocation counter: every live reference is < alloc
 	globals map[*ssa.Global]string // package-level variables
 	ghost   map[string]string      // ghost scalars
 }
 
 func (s *State) clone() *State {
-	n := &State{pc: s.pc, epoch: s.epoch, alloc: s.alloc,
+	n := &State{pc: s.pc, epoch: s.epoch, ext: s.ext, alloc: s.alloc,
 		cells: make(map[*ssa.Alloc]string, len(s.cells)), heap: make(map[string]string, len(s.heap)),
 		globals: make(map[*ssa.Global]string, len(s.globals)), ghost: make(map[string]string, len(s.ghost))}
 	for k, v := range s.cells {
@@ -49,11 +50,47 @@ func (vc *VC) epochHeap(key string, epoch int) string {
 	return n
 }
 
+func isExternalKey(key string) bool {
+	if strings.HasPrefix(key, "G|") {
+		return false
+	}
+	i := strings.Index(key, "|")
+	t := key[i+1:]
+	return !strings.Contains(t, repoModulePrefix) && strings.Contains(t, ".")
+}
+
 func (vc *VC) heapGet(st *State, key string) string {
+	t := vc.heapGet0(st, key)
+	if vc.heapTrace != nil {
+		vc.heapTrace[t] = vc.heapSorts[key]
+	}
+	return t
+}
+
+func (vc *VC) heapGet0(st *State, key string) string {
 	if t, ok := st.heap[key]; ok {
 		return t
 	}
+	if st.ext != 0 && isExternalKey(key) {
+		n := fmt.Sprintf("%s@e%dx%d", vc.heapNames[key], st.epoch, st.ext)
+		if !vc.declared[n] {
+			vc.declared[n] = true
+			vc.emit(fmt.Sprintf("(declare-fun %s () %s)", n, vc.heapSorts[key]))
+		}
+		return n
+	}
 	return vc.epochHeap(key, st.epoch)
+}
+
+// havocExternal forgets the content of every heap of dependency types.
+func (vc *VC) havocExternal(st *State) {
+	nEpoch++
+	st.ext = nEpoch
+	for k := range st.heap {
+		if isExternalKey(k) {
+			delete(st.heap, k)
+		}
+	}
 }
 
 func (vc *VC) globalGet(st *State, g *ssa.Global) string {
@@ -88,6 +125,7 @@ func (vc *VC) ghostGet(st *State, name, sort string) string {
 func (vc *VC) havocAll(st *State) {
 	nEpoch++
 	st.epoch = nEpoch
+	st.ext = 0
 	st.heap = map[string]string{}
 	st.globals = map[*ssa.Global]string{}
 	g := map[string]string{}
@@ -137,12 +175,13 @@ func (vc *VC) merge(ins []edgeState, hint string, cellType func(*ssa.Alloc) type
 	// epoch
 	sameEpoch := true
 	for _, e := range ins[1:] {
-		if e.st.epoch != ins[0].st.epoch {
+		if e.st.epoch != ins[0].st.epoch || e.st.ext != ins[0].st.ext {
 			sameEpoch = false
 		}
 	}
 	if sameEpoch {
 		res.epoch = ins[0].st.epoch
+		res.ext = ins[0].st.ext
 	} else {
 		nEpoch++
 		res.epoch = nEpoch
